@@ -1,9 +1,23 @@
 // Package c12 drives the REAL nodectrl.NodeCtrl (admin actor "__nodeadmin__", its command
-// table, the retire-support query and the service-retired handling) in a local protoactor
-// system.  The node application is a recording INodeApp whose UpdateNodeState goes through
-// the real app.App.UpdateNodeState into a recording cluster.Provider; hosted services are
-// real node/service.NodeService actors that receive ctrl.cmd through the real
-// node/builtin CtrlEventEntry and report "retired" through the real app.NotifyServiceRetired.
+// table, the retire-support query and the service-retired handling) under the REAL node
+// application: every case starts a node in-process with app.Node.Prepare / app.Node.StartNode
+// (configuration files written for the case, a launch mode of three socket-free modules), so
+// that the INodeApp the controller talks to is node/app.App itself:
+//   GetService          -> app.Cluster / ClusterServices: the service directory rebuilt by
+//                          MakeMembers from whatever the cluster provider publishes, every
+//                          ServiceItem carrying a COPY of its node's state
+//   FilterSelfServices  -> the node's configured service list (nodes.yaml)
+//   UpdateNodeState     -> the provider (recorded: EPub)
+//   StopNode            -> baseapp.App.Stop: the modules are stopped in reverse order; the
+//                          first one to be stopped is the harness' gate module (recorded: EStop),
+//                          which completes when the history says so (OStopDone)
+// The cluster provider is modelled on clusterproviders/etcd: UpdateClusterState only records
+// the node's own state; the topology handed to the node is rebuilt - own member included, with
+// the state the provider knows at that moment - when cluster membership changes (OTopo) or the
+// own member's service list changes (OHide / OShow).
+// Hosted services are real node/service.NodeService actors created through service.Factory by
+// App.StartServices; they receive ctrl.cmd through the real node/builtin CtrlEventEntry and
+// report "retired" through the real app.NotifyServiceRetired.
 package c12
 
 import (
@@ -12,6 +26,9 @@ import (
 	"io"
 	"log"
 	"log/slog"
+	"net"
+	"os"
+	"path/filepath"
 	"sort"
 	"strconv"
 	"strings"
@@ -25,6 +42,9 @@ import (
 	as "github.com/dfklegend/cell2/actorex/service"
 	"github.com/dfklegend/cell2/actorex/service/servicemsgs"
 	"github.com/dfklegend/cell2/apimapper/registry"
+	"github.com/dfklegend/cell2/baseapp"
+	"github.com/dfklegend/cell2/baseapp/interfaces"
+	"github.com/dfklegend/cell2/baseapp/module"
 	"github.com/dfklegend/cell2/node/app"
 	_ "github.com/dfklegend/cell2/node/builtin" // registers the __sys__ collection (ctrl.cmd for services)
 	"github.com/dfklegend/cell2/node/builtin/msgs"
@@ -32,6 +52,7 @@ import (
 	"github.com/dfklegend/cell2/node/config"
 	ns "github.com/dfklegend/cell2/node/service"
 	"github.com/dfklegend/cell2/nodectrl"
+	"github.com/dfklegend/cell2/nodectrl/define"
 	"github.com/dfklegend/cell2/utils/logger"
 
 	"verifh/hx"
@@ -39,17 +60,49 @@ import (
 
 const opTimeout = 20 * time.Second
 
-var initOnce sync.Once
+// the node of a case
+const (
+	nodeAddr    = "127.0.0.1:39012" // never listened on: it is only the actor system's own address
+	nodeID      = "n1"
+	clusterName = "c12"
+	launchMode  = "c12verif"
+)
+
+var (
+	initOnce sync.Once
+	cur      *world // the world of the case being executed (launch mode, creators and modules are process-wide)
+	scratch  string // directory for the per-case configuration files
+)
 
 func initProcess() {
 	initOnce.Do(func() {
 		logger.SetLogLevel(logrus.PanicLevel)
 		log.SetOutput(io.Discard)
-		registry.Registry.Build()
+		registry.Registry.Build() // what nodebuilder does before starting the node
+		baseapp.RegisterLaunchFunc(launchMode, func(a interfaces.IApp) {
+			a.AddModule(&sysModule{module.NewBaseModule()})
+			a.AddModule(&clusterModule{module.NewBaseModule()})
+			a.AddModule(&gateModule{module.NewBaseModule()})
+		})
+		for _, d := range []string{dNoListener, dNo, dOk, dErr} {
+			d := d
+			ns.Factory.Register(svcType(d), ns.NewFuncCreator(func(name string) { cur.createHosted(name, d) }))
+		}
+		// dAbsent: no creator is registered for its type - App.StartServices starts nothing
+		if scratch == "" {
+			dir, err := os.MkdirTemp("", "c12-cfg-")
+			if err != nil {
+				panic(err)
+			}
+			scratch = dir
+		}
 	})
 }
 
 func svcName(n int64) string { return fmt.Sprintf("svc-%d", n) }
+
+// the service type (nodes.yaml) that stands for a disposition
+func svcType(disp string) string { return "c12" + strings.ToLower(disp[1:]) }
 
 func svcToken(name string) int64 {
 	if !strings.HasPrefix(name, "svc-") {
@@ -73,7 +126,7 @@ type evlog struct {
 	mu   sync.Mutex
 	app  []any    // EPub st | EStop, in call order
 	recv []recvEv // ctrl.cmd requests as they arrive at harness services
-	fins []func(bool)
+	fins []interfaces.FuncWithSucc
 }
 
 func (l *evlog) drain() (appEvs []any, recv []recvEv) {
@@ -84,84 +137,141 @@ func (l *evlog) drain() (appEvs []any, recv []recvEv) {
 	return
 }
 
-// ---- recording cluster.Provider: the end of UpdateNodeState ----
+// ---- cluster.Provider modelled on clusterproviders/etcd ----
+//
+// etcd provider                                  here
+//   init: self = NewNode(name@id, host, port,    StartMember: the same, through ICluster
+//         c.GetServices()); self.SetState(c.GetState())
+//   UpdateClusterState: self.State = state       the same (+ recorded as EPub)
+//   members[self.ID] = self; watch events add /  setOthers: the other members present
+//   remove other members, then
+//   publishClusterTopologyEvent: every member's  publish: the same; a member's MemberStatus is
+//   MemberStatus() (a copy, State included) ->   a copy taken now, so the node's own services
+//   cluster.UpdateClusterTopology                are re-published with the state known now
+// `hidden` removes services from the own member's published list (a provider may publish any
+// member list through ICluster.UpdateClusterTopology).
 
-type recProvider struct{ log *evlog }
+type member struct {
+	id       string
+	host     string
+	port     int32
+	services []string // full names type.name
+	state    int
+}
 
-func (p *recProvider) StartMember(c cluster.ICluster) error { return nil }
-func (p *recProvider) StartClient(c cluster.ICluster) error { return nil }
-func (p *recProvider) Shutdown(graceful bool) error         { return nil }
-func (p *recProvider) UpdateClusterState(state int) error {
+type topoProvider struct {
+	log    *evlog
+	c      cluster.ICluster
+	self   *member
+	others []*member
+	hidden map[string]bool // own services (short name) left out of the published topology
+}
+
+func (p *topoProvider) StartMember(c cluster.ICluster) error {
+	p.c = c
+	host, ps, err := net.SplitHostPort(c.GetAddress())
+	if err != nil {
+		return err
+	}
+	port, err := strconv.Atoi(ps)
+	if err != nil {
+		return err
+	}
+	p.self = &member{
+		id: fmt.Sprintf("%v@%v", c.GetName(), c.GetID()), host: host, port: int32(port),
+		services: c.GetServices(), state: c.GetState(),
+	}
+	p.publish()
+	return nil
+}
+func (p *topoProvider) StartClient(c cluster.ICluster) error { return nil }
+func (p *topoProvider) Shutdown(graceful bool) error         { return nil }
+func (p *topoProvider) UpdateClusterState(state int) error {
+	p.self.state = state
 	p.log.mu.Lock()
 	p.log.app = append(p.log.app, hx.C("EPub", stateTerm(state)))
 	p.log.mu.Unlock()
 	return nil
 }
 
-// ---- recording INodeApp ----
-
-type hosted struct {
-	name string
-	pid  *actor.PID // nil: configured but not running
-}
-
-type recApp struct {
-	real *app.App
-	sys  *actor.ActorSystem
-	log  *evlog
-	list []hosted // configuration order, duplicates allowed
-
-	mu     sync.Mutex
-	hidden map[string]bool // names GetService currently does not resolve (OHide / OShow)
-}
-
-func (a *recApp) GetActorSystem() *actor.ActorSystem { return a.sys }
-
-func (a *recApp) setHidden(name string, h bool) {
-	a.mu.Lock()
-	defer a.mu.Unlock()
-	if h {
-		a.hidden[name] = true
-	} else {
-		delete(a.hidden, name)
-	}
-}
-
-// GetService: what the node application resolves right now.  A hidden service keeps running
-// (and can still report "retired"); it just cannot be found, as during a topology refresh.
-func (a *recApp) GetService(name string) *actor.PID {
-	a.mu.Lock()
-	hid := a.hidden[name]
-	a.mu.Unlock()
-	if hid {
-		return nil
-	}
-	return a.find(name)
-}
-
-func (a *recApp) find(name string) *actor.PID {
-	for _, h := range a.list {
-		if h.name == name {
-			return h.pid
+func (m *member) status(skip map[string]bool) *cluster.Member {
+	services := []string{}
+	for _, full := range m.services {
+		if i := strings.IndexByte(full, '.'); i >= 0 && skip[full[i+1:]] {
+			continue
 		}
+		services = append(services, full)
 	}
-	return nil
+	return &cluster.Member{Id: m.id, Host: m.host, Port: m.port, Services: services, State: m.state}
 }
 
-func (a *recApp) FilterSelfServices(filter func(name string, cfg *config.ServiceInfo)) {
-	for _, h := range a.list {
-		filter(h.name, &config.ServiceInfo{Type: "c12"})
+// publish = createClusterTopologyEvent + cluster.UpdateClusterTopology; the own member stands
+// somewhere among the others (the etcd provider iterates a map)
+func (p *topoProvider) publish() {
+	res := []*cluster.Member{}
+	k := len(p.others) / 2
+	for _, m := range p.others[:k] {
+		res = append(res, m.status(nil))
+	}
+	res = append(res, p.self.status(p.hidden))
+	for _, m := range p.others[k:] {
+		res = append(res, m.status(nil))
+	}
+	p.c.UpdateClusterTopology(res)
+}
+
+// setOthers: cluster membership is now the own node plus k others.  The others host services of
+// the same types as the own node (distinct names) and are in assorted states.
+func (p *topoProvider) setOthers(k int64) {
+	p.others = nil
+	for j := int64(1); j <= k; j++ {
+		p.others = append(p.others, &member{
+			id: fmt.Sprintf("%v@o%d", clusterName, j), host: "127.0.0.1", port: int32(39100 + j),
+			services: []string{
+				fmt.Sprintf("%s.oth-%d", svcType(dOk), j),
+				fmt.Sprintf("%s.oth-%d-b", svcType(dNo), j),
+				fmt.Sprintf("zone.zone-%d", j),
+			},
+			state: int((j+k)%5) + 1,
+		})
 	}
 }
 
-// real app.App.UpdateNodeState forwards to the provider set with SetProvider
-func (a *recApp) UpdateNodeState(state int) { a.real.UpdateNodeState(state) }
+// ---- the launch mode: what the all-in-one launch modes do, without sockets and etcd ----
 
-func (a *recApp) StopNode(fin func(succ bool)) {
-	a.log.mu.Lock()
-	a.log.app = append(a.log.app, "EStop")
-	a.log.fins = append(a.log.fins, fin)
-	a.log.mu.Unlock()
+// sysModule: the actor system whose own address is the node's address (so that the PIDs the
+// service directory builds from host:port are local)
+type sysModule struct{ *module.BaseModule }
+
+func (m *sysModule) Start(next interfaces.FuncWithSucc) {
+	app.Node.SetActorSystem(cur.sys)
+	next(true)
+}
+func (m *sysModule) Stop(next interfaces.FuncWithSucc) { next(true) }
+
+// clusterModule: node/modules ClusterModule with the provider above
+type clusterModule struct{ *module.BaseModule }
+
+func (m *clusterModule) Start(next interfaces.FuncWithSucc) {
+	app.Node.SetProvider(cur.prov)
+	next(cur.prov.StartMember(app.Node.GetCluster()) == nil)
+}
+func (m *clusterModule) Stop(next interfaces.FuncWithSucc) {
+	cur.prov.Shutdown(true)
+	next(true)
+}
+
+// gateModule is added last, hence stopped first: its Stop is the moment the node is being
+// stopped (EStop); the stop sequence goes on when the history delivers OStopDone.
+type gateModule struct{ *module.BaseModule }
+
+func (m *gateModule) Start(next interfaces.FuncWithSucc) { next(true) }
+func (m *gateModule) Stop(next interfaces.FuncWithSucc) {
+	l := cur.log
+	l.mu.Lock()
+	l.app = append(l.app, "EStop")
+	l.fins = append(l.fins, next)
+	l.mu.Unlock()
 }
 
 func stateTerm(s int) string {
@@ -256,14 +366,19 @@ func (p *probe) Receive(ctx actor.Context) { p.Service.Receive(ctx) }
 type world struct {
 	sys      *actor.ActorSystem
 	log      *evlog
-	rec      *recApp
+	node     *app.App // the real node application: the INodeApp of the controller
+	prov     *topoProvider
 	ctrl     *nodectrl.NodeCtrl
-	admin    *actor.PID
+	admin    *actor.PID // NodeCtrl.GetAdmin(): where the services report to
+	adminFar *actor.PID // the admin as the master addresses it: member host:port + define.NodeAdmin
 	master   *probe
+	hostedBy map[string]int64 // configured service name -> token (first declaration decides)
+	dispOf   map[int64]string
 	running  map[int64]*hsvc // every spawned harness service by token (hosted or stray)
 	order    []int64
 	stoppers []func()
 	pids     []*actor.PID
+	stopped  bool // the node's stop sequence completed successfully (App.Cleanup has run)
 }
 
 // One actor system for the whole process (creating one costs ~5 ms); every actor of a case is
@@ -279,12 +394,25 @@ func quietSystem() *actor.ActorSystem {
 }
 
 func newQuietSystem() *actor.ActorSystem {
-	return actor.NewActorSystem(actor.WithLoggerFactory(func(*actor.ActorSystem) *slog.Logger {
+	sys := actor.NewActorSystem(actor.WithLoggerFactory(func(*actor.ActorSystem) *slog.Logger {
 		return slog.New(slog.NewTextHandler(io.Discard, nil))
 	}))
+	sys.ProcessRegistry.Address = nodeAddr
+	return sys
 }
 
-func (w *world) spawnService(tok int64, disp string) *hsvc {
+// createHosted is what the service creators registered with service.Factory do (called by
+// App.StartServices): spawn the actor under the service's name and start the node service.
+func (w *world) createHosted(name string, disp string) {
+	tok := svcToken(name)
+	if _, ok := w.running[tok]; ok {
+		return // listed twice in the node configuration: the name is taken
+	}
+	w.spawnService(tok, disp, name)
+}
+
+// spawnService starts a node service that calls itself svc-<tok>, as the actor actorName.
+func (w *world) spawnService(tok int64, disp string, actorName string) *hsvc {
 	name := svcName(tok)
 	h := &hsvc{NodeService: ns.NewService(), tok: tok, disp: disp, log: w.log}
 	started := make(chan struct{})
@@ -306,13 +434,17 @@ func (w *world) spawnService(tok int64, disp string) *hsvc {
 		h.SetCtrlCmdListener(&listener{"no"})
 	}
 	h.SetOwner(h)
-	pid, err := w.sys.Root.SpawnNamed(props, name)
+	pid, err := w.sys.Root.SpawnNamed(props, actorName)
 	if err != nil {
 		panic(err)
 	}
 	h.pid = pid
 	waitOn(started, "service start "+name)
-	ns.StartNodeService(w.sys.Root, pid, name, &config.ServiceInfo{Type: "c12"})
+	info := w.node.GetServiceCfg(name)
+	if info == nil { // a stray service, unknown to the node
+		info = &config.ServiceInfo{Type: svcType(disp)}
+	}
+	ns.StartNodeService(w.sys.Root, pid, name, info)
 	// the name is set when StartServiceCmd is processed: wait for it (same mailbox, FIFO)
 	w.call(pid, "c12.nosuch", &msgs.CtrlCmd{})
 	w.running[tok] = h
@@ -331,13 +463,55 @@ func waitOn(ch chan struct{}, what string) {
 	}
 }
 
+// writeConfig writes cluster.yaml / master.yaml / nodes.yaml of the case: one node n1 whose
+// service list is the Host items in order (a name may be listed twice); the services section
+// gives every name the type of its first declaration.
+func writeConfig(cfg []hx.Pair) string {
+	dir := filepath.Join(scratch, "cfg")
+	if err := os.MkdirAll(dir, 0o755); err != nil {
+		panic(err)
+	}
+	must := func(name, body string) {
+		if err := os.WriteFile(filepath.Join(dir, name), []byte(body), 0o644); err != nil {
+			panic(err)
+		}
+	}
+	must("cluster.yaml", "---\nEnable: true\nNodeCtrl: true\nName: "+clusterName+"\nETCDServer: 127.0.0.1:1\nToken: x\n")
+	must("master.yaml", "---\n")
+	var list, types strings.Builder
+	seen := map[int64]bool{}
+	for _, c := range cfg {
+		tok, disp := c.A.(int64), hx.AsTerm(c.B).Name
+		fmt.Fprintf(&list, "      - %s\n", svcName(tok))
+		if !seen[tok] {
+			seen[tok] = true
+			fmt.Fprintf(&types, "  %s:\n    Type: %s\n", svcName(tok), svcType(disp))
+		}
+	}
+	body := "---\nnodes:\n  " + nodeID + ":\n    StartMode: " + launchMode + "\n    Address: " + nodeAddr + "\n"
+	if len(cfg) == 0 {
+		body += "    Services: []\n\nservices: {}\n"
+	} else {
+		body += "    Services:\n" + list.String() + "\nservices:\n" + types.String()
+	}
+	must("nodes.yaml", body)
+	return dir
+}
+
 // cfg: (token, disposition) in configuration order
 func newWorld(cfg []hx.Pair) *world {
 	initProcess()
-	w := &world{sys: quietSystem(), log: &evlog{}, running: map[int64]*hsvc{}}
-	app.Node = app.NewNode()
-	app.Node.SetProvider(&recProvider{w.log})
-	w.rec = &recApp{real: app.Node, sys: w.sys, log: w.log, hidden: map[string]bool{}}
+	w := &world{sys: quietSystem(), log: &evlog{}, running: map[int64]*hsvc{},
+		hostedBy: map[string]int64{}, dispOf: map[int64]string{}}
+	cur = w
+	w.prov = &topoProvider{log: w.log, hidden: map[string]bool{}}
+	for _, c := range cfg {
+		tok, disp := c.A.(int64), hx.AsTerm(c.B).Name
+		if _, ok := w.hostedBy[svcName(tok)]; !ok {
+			w.hostedBy[svcName(tok)] = tok
+			w.dispOf[tok] = disp
+		}
+	}
 	// master
 	w.master = &probe{Service: as.NewService()}
 	started := make(chan struct{})
@@ -351,33 +525,31 @@ func newWorld(cfg []hx.Pair) *world {
 	w.pids = append(w.pids, mpid)
 	waitOn(started, "master start")
 	w.stoppers = append(w.stoppers, w.master.GetRunService().Stop)
-	for _, c := range cfg {
-		tok, disp := c.A.(int64), hx.AsTerm(c.B).Name
-		h := hosted{name: svcName(tok)}
-		if w.declared(h.name) {
-			h.pid = w.rec.find(h.name) // duplicate entry: the first declaration decides
-		} else if disp != dAbsent {
-			h.pid = w.spawnService(tok, disp).pid
+	// the real thing: a node started the way main() starts it
+	app.Node = app.NewNode()
+	w.node = app.Node
+	w.node.Prepare(writeConfig(cfg))
+	up := make(chan bool, 1)
+	w.node.StartNode(nodeID, func(succ bool) { up <- succ })
+	select {
+	case ok := <-up:
+		if !ok {
+			panic("c12: node did not start")
 		}
-		w.rec.list = append(w.rec.list, h)
+	case <-time.After(opTimeout):
+		panic("c12: node start timed out")
 	}
-	// the real thing
-	w.ctrl = app.Node.GetNodeCtrl()
-	w.ctrl.Start(w.rec)
+	w.ctrl = w.node.GetNodeCtrl()
 	w.admin = w.ctrl.GetAdmin()
+	if w.admin == nil {
+		panic("c12: node controller not started")
+	}
+	// _tools/master builds the admin's PID from the member the node published
+	w.adminFar = actor.NewPID(fmt.Sprintf("%v:%v", w.prov.self.host, w.prov.self.port), define.NodeAdmin)
 	w.pids = append(w.pids, w.admin)
 	w.stoppers = append(w.stoppers, w.ctrl.VerifStop)
 	w.settle()
 	return w
-}
-
-func (w *world) declared(name string) bool {
-	for _, h := range w.rec.list {
-		if h.name == name {
-			return true
-		}
-	}
-	return false
 }
 
 func (w *world) close() {
@@ -387,6 +559,25 @@ func (w *world) close() {
 	for _, s := range w.stoppers {
 		s()
 	}
+	if !w.stopped {
+		w.node.GetApp().Cleanup() // the application's own run service
+	}
+}
+
+// directory is what the node's service directory says about the node's own configured services
+// right now: (token, state copy) for every one it lists, by token.
+func (w *world) directory() []any {
+	m := map[int64]any{}
+	for name, tok := range w.hostedBy {
+		if it := w.node.GetCluster().GetService(name); it != nil {
+			m[tok] = stateTerm(it.State)
+		}
+	}
+	l := []any{}
+	for _, k := range hx.SortedKeys(m) {
+		l = append(l, hx.Pair{A: k, B: m[k]})
+	}
+	return l
 }
 
 type callRes struct {
@@ -496,13 +687,14 @@ func recvCmd(c string) string {
 	panic("c12: service received unexpected ctrl.cmd " + c)
 }
 
-// sender returns a running node service named svc-<tok>, spawning a stray one (not known to
-// the node application) when the token is not hosted or hosted-but-absent.
+// sender returns a running node service that calls itself svc-<tok>, spawning a stray one when
+// the token is not hosted or hosted-but-absent.  A stray runs under another actor name: the
+// node's directory builds PIDs from service names, so it cannot be reached as svc-<tok>.
 func (w *world) sender(tok int64) *hsvc {
 	if h, ok := w.running[tok]; ok {
 		return h
 	}
-	return w.spawnService(tok, dOk)
+	return w.spawnService(tok, dOk, "stray-"+svcName(tok))
 }
 
 // do executes one operation and returns its observation  Ob reply appEvents received.
@@ -511,7 +703,7 @@ func (w *world) do(o hx.T) any {
 	switch o.Name {
 	case "OCmd":
 		c := hx.AsTerm(o.Args[0]).Name
-		r := w.call(w.admin, "ctrl.cmd", &msgs.CtrlCmd{Cmd: cmdString(c)})
+		r := w.call(w.adminFar, "ctrl.cmd", &msgs.CtrlCmd{Cmd: cmdString(c)})
 		if r.err != nil {
 			panic("c12: ctrl.cmd failed: " + r.err.Error())
 		}
@@ -544,7 +736,7 @@ func (w *world) do(o hx.T) any {
 		waitOn(done, "notify")
 	case "OStopDone":
 		w.log.mu.Lock()
-		var fin func(bool)
+		var fin interfaces.FuncWithSucc
 		if len(w.log.fins) > 0 {
 			fin, w.log.fins = w.log.fins[0], w.log.fins[1:]
 		}
@@ -552,13 +744,26 @@ func (w *world) do(o hx.T) any {
 		if fin != nil {
 			done := make(chan struct{})
 			succ := o.Bool(0)
+			// the gate module reports its Stop as done: the remaining modules are stopped and
+			// App.StopNode's completion runs (delivered in the admin context, see ASSUMPTIONS)
 			w.ctrl.VerifPost(func() { fin(succ); close(done) })
 			waitOn(done, "stop-done")
+			if succ {
+				w.stopped = true
+			}
 		}
 	case "OHide":
-		w.rec.setHidden(svcName(o.Int(0)), true)
+		w.prov.hidden[svcName(o.Int(0))] = true
+		w.prov.publish()
+		reply = hx.C("RDir", w.directory())
 	case "OShow":
-		w.rec.setHidden(svcName(o.Int(0)), false)
+		delete(w.prov.hidden, svcName(o.Int(0)))
+		w.prov.publish()
+		reply = hx.C("RDir", w.directory())
+	case "OTopo":
+		w.prov.setOthers(o.Int(0))
+		w.prov.publish()
+		reply = hx.C("RDir", w.directory())
 	default:
 		panic("c12: unknown op " + o.Name)
 	}
